@@ -19,6 +19,9 @@ import (
 //	zz-rev: 'R' + reversed bytes
 //	Zz-Xor: 'X' + bytes xor 0x5A
 //	zz-len: 'L' + 4-byte big-endian length + bytes
+//	zz-lazy: nothing at all for an empty message, otherwise 'Y' + bytes; its
+//	         decompressor (like gzip's) rejects an empty source. Not part of
+//	         AlgoNames: only checks that ask for it by name use it.
 
 // AlgoNames is the custom universe (gzip is added by the library itself).
 var AlgoNames = []string{"zz-rev", "Zz-Xor", "zz-len"}
@@ -39,6 +42,11 @@ func algoEncode(name string, b []byte) []byte {
 			out = append(out, c^0x5A)
 		}
 		return out
+	case "zz-lazy":
+		if len(b) == 0 {
+			return nil
+		}
+		return append([]byte{'Y'}, b...)
 	case "zz-len":
 		out := make([]byte, 0, len(b)+5)
 		out = append(out, 'L', byte(len(b)>>24), byte(len(b)>>16), byte(len(b)>>8), byte(len(b)))
@@ -49,9 +57,17 @@ func algoEncode(name string, b []byte) []byte {
 
 func algoDecode(name string, b []byte) ([]byte, error) {
 	if len(b) == 0 {
+		if name == "zz-lazy" {
+			return []byte{}, nil
+		}
 		return nil, errors.New(name + ": empty input")
 	}
 	switch name {
+	case "zz-lazy":
+		if b[0] != 'Y' {
+			return nil, fmt.Errorf("zz-lazy: bad magic %#x", b[0])
+		}
+		return append([]byte(nil), b[1:]...), nil
 	case "zz-rev":
 		if b[0] != 'R' {
 			return nil, fmt.Errorf("zz-rev: bad magic %#x", b[0])
@@ -87,7 +103,7 @@ func algoDecode(name string, b []byte) ([]byte, error) {
 // universe.
 func RefAlgos() refcodec.Algos {
 	a := refcodec.DefaultAlgos()
-	for _, n := range AlgoNames {
+	for _, n := range append(append([]string(nil), AlgoNames...), "zz-lazy") {
 		n := n
 		a[n] = struct {
 			Compress   func([]byte) []byte
